@@ -224,7 +224,7 @@ def coq_step(prop, thorough=False):
                 res.update(stage="proof", detail="coqchk failed: " + (out + err)[-1500:])
                 res["wall_s"] = time.time() - t0
                 return res
-            m = re.search(r"\* Axioms:\s*(.*?)(?:\n\s*\n|\Z)", out, flags=re.S)
+            m = re.search(r"\* Axioms:\s*(.*?)(?:\n\s*\n|\Z)", out + "\n" + err, flags=re.S)
             ax = m.group(1).strip() if m else "?"
             res["coqchk"]["axioms"] = ax
             if "<none>" not in ax:
